@@ -1,6 +1,7 @@
 use crate::engine::PropFn;
 
 pub mod c01;
+pub mod c01_nodes;
 pub mod c02;
 pub mod c03;
 pub mod c04;
@@ -14,6 +15,7 @@ pub mod c08_nodes;
 pub mod c08_slow;
 pub mod c09;
 pub mod c09_nodes;
+pub mod c09_rogue;
 pub mod c10;
 pub mod c11;
 pub mod c12;
